@@ -269,7 +269,7 @@ def rt_case(rule, path):
         info['matched'] = True
         names, vals = m
         sv = enc_vals(vals)
-        impl = 'm=%s s=%s' % (sv, '-' if rex else sv)
+        impl = 'd=1 m=%s s=%s' % (sv, '-' if rex else sv)
         anon, kw = split_args(names, vals)
         e2, fenv = url_tables(route, fks, anon, kw)
         env += e2
